@@ -3,19 +3,23 @@
 (* of its three members carry a skip marker x spelling of the marker) next to an annotated         *)
 (* neighbour and an un-annotated decoy. Prints the program and the definitions P requires.          *)
 EXTENDS Program, TLC, Json
-CONSTANTS Kinds, Annotations, Nestings, SkipSets, SkipSpellings, Modes, Twins
+CONSTANTS Kinds, Annotations, Nestings, SkipSets, SkipSpellings, Modes, Twins, Lookalikes
 VARIABLE c
 
 \* mode: single-file output or folder output (one module per crate); the required definitions are the same
 \* twin = "sibling": a second annotated item of the same kind with the SAME Rust identifier lives in a sibling module (v1::Event /
 \* v2::Event), told apart on the foreign side by serde(rename): two annotated items, two definitions
-Init == c \in [kind : Kinds, annotation : Annotations, nesting : Nestings, skips : SkipSets, spelling : SkipSpellings, mode : Modes, twin : Twins]
+Init == c \in [kind : Kinds, annotation : Annotations, nesting : Nestings, skips : SkipSets, spelling : SkipSpellings, mode : Modes, twin : Twins, lookalike : Lookalikes]
 Next == UNCHANGED c
 
 HasMembers(k) == k \in {"struct", "unit_enum", "tagged_enum"}
 InScope == (~HasMembers(c.kind) => (c.skips = "none" /\ c.spelling = "serde_skip"))
            /\ (c.twin # "none" => (HasMembers(c.kind) /\ c.annotation = "plain" /\ c.nesting \in {"top", "mod1"} /\ c.skips = "none"))
            /\ (c.skips = "none" => c.spelling = "serde_skip")
+           \* lookalike: every member that is NOT skipped carries a serde argument that resembles a skip marker and is none:
+           \* skip_serializing / skip_deserializing (one direction only: the member is still part of the wire format) and
+           \* skip_serializing_if = ".." (a condition). Such members are "not marked serde(skip) or typeshare(skip)": they are listed
+           /\ (c.lookalike # "none" => (HasMembers(c.kind) /\ c.annotation = "plain" /\ c.nesting = "top" /\ c.twin = "none" /\ c.mode = "single"))
 Skipped(i) == CASE c.skips = "none" -> FALSE
                 [] c.skips = "first" -> i = 1
                 [] c.skips = "middle" -> i = 2
